@@ -36,8 +36,16 @@ def run(tier):
     if tier == "thorough":
         cr.update({"MaxExt": 3})
     runs.append(("c01_recv", cr))
+    # the call syntax with four arguments (every mix of index / range / all) on 4-dimensional roots
+    cp = constants("quick"); cp.update({"MaxD": 4, "MaxExt": 2, "MaxDepth": 1, "ParenArgs": 4, "ParenLean": False, "OpNames": {"paren"}, "MaxDim": 5})
+    runs.append(("c01_paren4", cp))
     exhaustive = True
     sims = {}
+    # beyond the exhaustive bound: random programs over larger extents (sizes up to 6, which are not all multiples of each other,
+    # D <= 4), TLC -simulate seeded by VERIF_SEED
+    cl = constants("quick"); cl.update({"MaxD": 4, "MaxExt": 6, "MaxDepth": 3, "ParenLean": True})
+    runs.append(("c01_large_random", cl))
+    sims["c01_large_random"] = {"simulate": 4 if tier == "quick" else 12, "depth": 4, "workers": 8}
     if tier == "thorough":
         # deep random programs on larger roots (TLC -simulate, seeded by VERIF_SEED): beyond the exhaustive bound
         c4 = constants("quick"); c4.update({"MaxD": 4, "MaxExt": 5, "MaxDepth": 8, "ParenLean": True})
